@@ -1109,7 +1109,7 @@ CHECKS["C13"] = Spec(
 )
 CHECKS["C11"] = Spec(
     prop_file="C11.v",
-    quick_n=120,      # every history ends with a drain phase of ~10 cycles, each followed by byte images of all files: the replay is the expensive part
+    quick_n=120, thorough_n=1200,      # every history ends with a drain phase of ~10 cycles, each followed by byte images of all files: the replay is the expensive part
     weights=dict(put=36, remove=18, flush=12, pgc=14, igc=10, get=4, reopen=2),
     gen_kw=dict(pmax_choices=(1, 60, 100, 300), imax_choices=(1, 40, 100, 300), imm_p=0.0),
     # time-limited cycles before the drain: a cycle stopped by its limit must not make a later cycle skip work (resume cursor, visited / affected sets)
